@@ -27,7 +27,7 @@ ANCHORS = ["stage:Stage.set_value", "sampling_method:SamplingMethod.set_paramete
 CASE_LIMIT = {"quick": 120, "thorough": 300}
 
 PROFILE = {"methods": ["MS", "SS", "DC"], "alg": 0.3,
-           "grids": ["uniform", "uniform", "geometric", "function", "free"],
+           "grids": ["uniform", "uniform", "geometric", "function", "free", "uniform_loc", "geometric_loc"],
            "t0_kinds": ["num", "param", "free"], "T_kinds": ["num", "param", "param", "free"],
            "N": [1, 2, 3, 4], "M": [1, 2, 3], "quad_states": 0.0}
 
@@ -90,6 +90,9 @@ def gen_cases(rng, tier):
         while spec is None or not [p for p in spec["params"]]:
             spec = ocpgen.gen_stage(rng, PROFILE)
         N = spec["method"]["N"]
+        if spec["T"]["kind"] == "param" and rng.random() < 0.35:
+            # the horizon is an expression of the parameter (set_T(c*p)), not the bare symbol
+            spec["T"]["factor"] = rng.choice([2.0, 0.5, 1.5])
         ncon = rng.randint(1, 3)
         spec["constraints"] = [ocpgen.gen_constraint(rng, spec, cid + 1, grids=["control", "integrator"],
                                                      allow_offsets=False) for cid in range(ncon)]
@@ -169,7 +172,7 @@ def constant_version(spec, shadow):
         p["value"] = shadow[p["name"]]
     for key in ("t0", "T"):
         if sp[key]["kind"] == "param":
-            sp[key] = {"kind": "num", "val": float(glob[sp[key]["name"]][0][0])}
+            sp[key] = {"kind": "num", "val": float(sp[key].get("factor", 1.0)) * float(glob[sp[key]["name"]][0][0])}
     for nm, mat in sp["rhs"].items():
         sp["rhs"][nm] = [[subst_consts(e, glob) for e in row] for row in mat]
     for a in sp.get("alg", []):
@@ -335,6 +338,25 @@ def run_case(case):
         obs.refresh()
         if not compare("after set_value %s" % ("after a solve" if e["phase"] == "post_solve" else "on the transcribed "
                                                                                                   "problem"), 1):
+            return res
+    post = [e for e in events if e["phase"] != "pre"]
+    if post and not any(e.get("op") == "set_initial" for e in post):
+        # values changed afterwards: the start point is the one of the OCP with the final values written in
+        try:
+            twin2 = engine.Observed(constant_version(spec, shadow))
+            obs.refresh()
+            if twin2.view.nx == obs.view.nx and obs.view.nx:
+                res["evals"] += 1
+                res["counters"]["const_twin_start_after_updates"] = 1
+                d = float(np.max(np.abs(obs.view.x0 - twin2.view.x0)))
+                if d > 1e-12:
+                    res["violations"].append({
+                        "kind": "start-point-differs", "mech": "C09|start-point-differs-from-twin|after-updates",
+                        "detail": "after set_value on the transcribed problem the start point differs by %.3g from the "
+                                  "one of the OCP with the final values written in" % d})
+                    return res
+        except C.RockitRaised as e:
+            res["violations"].append(C.exc_violation(ID, e, "constant-twin-after-updates"))
             return res
     if solved:
         # the next solve sees the shadow values
